@@ -192,7 +192,7 @@ class G:
                  str(rng.randint(0, 1)), rng.choice(['none', '0', '1', '2']))
 
 
-AHX = [False]        # known finding C02-asciihex: ASCIIHexDecode on structural streams only in the 'ahx' profile
+AHX = [False]        # the 'ahx' profile draws ASCIIHexDecode on most structural streams (repaired finding C02-asciihex, /repo 695e965)
 PNG = [False]        # the 'png' profiles: every structural stream is Flate-encoded with a PNG predictor
 
 
@@ -226,7 +226,8 @@ def g_sfilter(rng, wild):
             return 'none'
         return g_pred(rng)
     return rng.choice(['none', 'a85', L('flate', str(rng.choice([0, 1, 4, 30, 65534])), pred()),
-                       L('a85flate', str(rng.choice([0, 7, 65534])), pred())])
+                       L('a85flate', str(rng.choice([0, 7, 65534])), pred()),
+                       L('ahx', str(rng.randint(0, 1)), L(*[str(rng.randint(0, 40)) for _ in range(rng.randint(0, 5))]))])
 
 
 def g_secs(rng, size, used, wild):
@@ -604,6 +605,36 @@ def gen_objstm(rng):
     return L('objstm', D(ents), xb(payload)), {'kind': 'objstm', 'nontrivial': True}
 
 
+def gen_ahx(rng):
+    """ASCIIHexDecode: legal encodings (either case, white-space anywhere, odd final digit, EOD, anything after EOD) with the
+    plain text for the direct verdict; and damaged ones (illegal characters, no EOD) for the correspondence"""
+    data = bytes(rng.getrandbits(8) for _ in range(rng.choice([0, 1, 2, 3, 8, 40])))
+    ws = [b' ', b'\n', b'\r', b'\t', b'\x0c', b'\x00', b'\r\n']
+    out = b''
+    for i, b in enumerate(data):
+        h = ('%02X' if rng.random() < 0.5 else '%02x') % b
+        if rng.random() < 0.3:
+            h = h[0].swapcase() + h[1]
+        if rng.random() < 0.2:
+            out += rng.choice(ws)
+        if i == len(data) - 1 and b % 16 == 0 and rng.random() < 0.5:
+            out += h[:1].encode()
+            break
+        out += h[:1].encode() + (rng.choice(ws) if rng.random() < 0.15 else b'') + h[1:].encode()
+    if rng.random() < 0.3:
+        out += rng.choice(ws)
+    m = rng.random()
+    if m < 0.55:
+        out += b'>' + rng.choice([b'', b'', b'\n', b'zz not hex', b'>', b'41'])
+        return L('ahx', xb(out), xb(data)), {'kind': 'ahx', 'nontrivial': True}
+    if m < 0.7:
+        return L('ahx', xb(out), 'none'), {'kind': 'ahx-noeod', 'nontrivial': True}
+    bad = rng.choice([b'g', b'G', b'/', b':', b'@', b'`', b'<', b'~', b'\x0b', b'\x80', b'\xff', b'x'])
+    i = rng.randint(0, len(out))
+    out = out[:i] + bad + out[i:] + rng.choice([b'>', b''])
+    return L('ahx', xb(out), 'none'), {'kind': 'ahx-bad', 'nontrivial': True}
+
+
 # ------------------------------------------------------------------------------------------------
 def stage1(write_cases):
     """run the extracted reference writer; returns load cases"""
@@ -646,6 +677,8 @@ def gen_cases(rng, tier):
         cases.append(gen_xrefstream(rng))
         cases.append(gen_xreftable(rng))
         cases.append(gen_objstm(rng))
+    for _ in range(m // 2):
+        cases.append(gen_ahx(rng))
     return cases
 
 
@@ -655,8 +688,6 @@ def classify(line, tags, model_out, impl_out, verdict):
         return 'C02-raw-eol'
     if tags.get('known_deep'):
         return 'C02-deep-parens'
-    if tags.get('known_ahx'):
-        return 'C02-asciihex'
     return None
 
 
